@@ -122,8 +122,24 @@ class Eval:
 
 def toint(v): return z3.If(v, 1, 0) if z3.is_bool(v) else v
 
-def ob_match(r, tier, seed, sty, rows, depth, bind_row=None, flat=False, force0=None, unit_result=False):
+def dump_value(v, depth=0):
+    """structural dump of an interpreter value (aggregates, vectors, strings, boxes); used to compare two decision trees"""
+    from mirsym.engine import Agg as A_, PyVec as V_, Str as S_, Ref as R_
+    if depth > 200: return '...'
+    if isinstance(v, R_): return dump_value(v.get(), depth + 1)
+    if isinstance(v, A_) and v.ty == 'Box': return dump_value(unbox(v), depth + 1)
+    if isinstance(v, S_):
+        try: return ms.pystr(v)
+        except Exception: return 'str?'
+    if isinstance(v, A_): return (str(v.ty), v.idx, tuple(dump_value(x, depth + 1) for x in v.fields))
+    if isinstance(v, V_): return tuple(dump_value(x, depth + 1) for x in v.items)
+    if isinstance(v, (int, bool, str)) or v is None: return v
+    if isinstance(v, (list, tuple)): return tuple(dump_value(x, depth + 1) for x in v)
+    return str(v)[:80]
+
+def ob_match(r, tier, seed, sty, rows, depth, bind_row=None, flat=False, force0=None, unit_result=False, hash_symbolic=False):
     W = e2.fresh_world(CRATES); c = Ctx(W)
+    if hash_symbolic: W.hash_order = 'symbolic'
     nl = rows * 4
     uses_enum = 'e' in json.dumps(sty)
     sv = sym_scrutinee(sty); flat_t = []
@@ -206,6 +222,7 @@ def ob_match(r, tier, seed, sty, rows, depth, bind_row=None, flat=False, force0=
         rws = ex.call('make_rows', [Ref(h, 5), Ref(h, 4)])
         core = ex.call('compile_rows', [Ref(h, 0), Ref(h, 1), Ref(h, 2), rws, Ref(h, 3), ms.NONE()])
         ndiag = len(h[2].fields[0].items)
+        if hash_symbolic: return dump_value(core), ndiag, descs
         env = {'s': sv}
         try: got = Eval(c).ev(core, env)
         except (z3.Z3Exception, TypeError, IndexError, AttributeError) as e_:
@@ -215,6 +232,7 @@ def ob_match(r, tier, seed, sty, rows, depth, bind_row=None, flat=False, force0=
         return got, exp, ndiag, descs, z3.Or(*conds)
     res = e2.explore(r, W, entry, assumptions)
     found = {}
+    if hash_symbolic: return res
     for p in res:
         r.cases += 1
         if p.kind != 'ok':
